@@ -34,11 +34,19 @@ theorem labelPart_R {s : St} {a : AddrSpec.A} (h : Rout s a) (st : Stmt) (hs : i
 
 /-- `WriteCode` outside a structure, no address overflow -/
 theorem writeCode_ok (d : Dec) (hns : d.s.actPC ≠ structSeg) (hc : d.crash = false)
-    (hchk : chkPC d.s (wrap64 (epc d.s + d.codeLen - 1)) = true ∨ d.codeLen = 0) :
+    (hchk : (chkPC d.s (epc d.s) = true ∧ chkPC d.s (wrap64 (epc d.s + d.codeLen - 1)) = true) ∨ d.codeLen = 0) :
     writeCode d = ({ d.s with used := upd d.s.used d.s.actPC true, pcs := upd d.s.pcs d.s.actPC (wrap64 (pc d.s + d.codeLen)) },
                    { errs := d.errs, defs := d.defs, ev := if d.dontPrint then .jump (wrap64 (pc d.s + d.codeLen)) else .emit d.codeLen d.fill }) := by
   unfold writeCode
-  rcases hchk with hchk | hchk <;> simp [hc, hns, hchk]
+  rcases hchk with ⟨h1, h2⟩ | hchk
+  · simp [hc, hns, h1, h2]
+  · simp [hc, hns, hchk]
+
+/-- `DefChkPC` is monotone in the address -/
+theorem chkPC_mono (s : St) {a b : Int} (hab : a ≤ b) (h : chkPC s b = true) : chkPC s a = true := by
+  unfold chkPC at *
+  simp only [Bool.and_eq_true, decide_eq_true_eq] at *
+  exact ⟨h.1, by omega⟩
 
 theorem writeCode_ovf (d : Dec) (hns : d.s.actPC ≠ structSeg) (hc : d.crash = false)
     (hchk : chkPC d.s (wrap64 (epc d.s + d.codeLen - 1)) = false) (hl : d.codeLen ≠ 0) :
@@ -107,7 +115,8 @@ def written (d : Dec) : St :=
 
 theorem step_ok (cfg : Cfg) {s : St} {a : AddrSpec.A} (h : Rout s a) (st : Stmt) (hs : isStructOp st.op = false)
     (hns : (decode cfg s st.op).s.actPC ≠ structSeg) (hc : (decode cfg s st.op).crash = false)
-    (hchk : chkPC (decode cfg s st.op).s (wrap64 (epc (decode cfg s st.op).s + (decode cfg s st.op).codeLen - 1)) = true ∨
+    (hchk : (chkPC (decode cfg s st.op).s (epc (decode cfg s st.op).s) = true ∧
+             chkPC (decode cfg s st.op).s (wrap64 (epc (decode cfg s st.op).s + (decode cfg s st.op).codeLen - 1)) = true) ∨
             (decode cfg s st.op).codeLen = 0) :
     (step cfg s st).1 = written (decode cfg s st.op) ∧ (step cfg s st).2.errs = (decode cfg s st.op).errs ∧
     (step cfg s st).2.crash = false ∧ (step cfg s st).2.defs = modelLabelDefs s st ++ (decode cfg s st.op).defs := by
@@ -458,7 +467,11 @@ theorem sim_reserve (cfg : Cfg) (segs) (hag : Agree segs) {s : St} {a : AddrSpec
       cases b with
       | true =>
         have hchk := c1 ho
-        obtain ⟨h1, h2, h3, h4⟩ := step_ok cfg h ⟨lab, op⟩ hs hns hc (Or.inl (by rw [hds, hdk]; exact hchk))
+        have hd : AddrSpec.dollar a = a.pc a.seg + AddrSpec.off a a.seg := by simp [AddrSpec.dollar, h.frames]
+        have hepc : epc s = AddrSpec.dollar a := by rw [R_epc h, wrap64_small he (by omega)]
+        have haddr : wrap64 (epc s + k - 1) = AddrSpec.dollar a + k - 1 := by rw [hepc, wrap64_small (by omega) (by omega)]
+        have hfirst : chkPC s (epc s) = true := chkPC_mono s (by rw [haddr, hepc]; omega) hchk
+        obtain ⟨h1, h2, h3, h4⟩ := step_ok cfg h ⟨lab, op⟩ hs hns hc (Or.inl ⟨by rw [hds]; exact hfirst, by rw [hds, hdk]; exact hchk⟩)
         simp only []
         rw [h1, h2, h3, h4, modelLabelDefs_eq h, hde, hdd]
         refine ⟨?_, rfl, rfl, by simp⟩
